@@ -9,6 +9,7 @@ import (
 // Registry maps property id to its check.
 var Registry = map[string]func(p *load.Prog, r *oblig.Run){
 	"C01": C01,
+	"C03": C03,
 	"C04": C04,
 	"C06": C06,
 }
